@@ -4,7 +4,6 @@ CONSTANTS
   MaxLive = 3
   HeaderRows <- HR2
   Lean = FALSE
-CONSTRAINT Emit
 INVARIANT StagePerLine
 INVARIANT NodePerCell
 INVARIANT SurplusRejects
